@@ -698,6 +698,35 @@ def h_err_map_keep(ex, st, frame, t, nf, args, dty):
     return alts
 
 
+def _captures_mut(f):
+    return isinstance(f, Obj) and any(isinstance(x, Ref) and x.mut for x in f.fields.values())
+
+
+def h_result_map_err(ex, st, frame, t, nf, args, dty):
+    """Result::map_err(self, f).  A closure that captures nothing mutable only builds the error value and is not
+    executed (h_err_map_keep); one that captures `&mut` state is executed on the Err path (its side effects count)."""
+    v, f = args[0], args[1] if len(args) > 1 else None
+    if not _captures_mut(f):
+        return h_err_map_keep(ex, st, frame, t, nf, args, dty)
+    good = split_enum(ex, st, v, 0)
+    outs = []
+    if ex.feasible(st, good):
+        s_ok = st.fork()
+        s_ok.pc.append(good)
+        ex.set_dest_and_goto(s_ok, t, ok(ex._get_field(s_ok, v, "Ok", 0, "?"), dty))
+        outs.append(s_ok)
+    if ex.feasible(st, z3.Not(good)):
+        st.pc.append(z3.Not(good))
+        payload = ex._get_field(st, v, "Err", 0, "?")
+        call_value(ex, st, frame, f, [payload], t.dest, t.targets.get("return"))
+
+        def w(ex_, st_, val, _dty=dty):
+            return err(val, _dty)
+        st.frames[-1].ret_wrap = w
+        outs.append(st)
+    return ("states", outs)
+
+
 def h_ok_or_else(ex, st, frame, t, nf, args, dty):
     v = args[0]
     is_some = split_enum(ex, st, v, 1)
@@ -975,6 +1004,19 @@ def h_option_as_ref(ex, st, frame, t, nf, args, dty):
     return [(some(inner, dty), is_some), (none(dty), z3.Not(is_some))]
 
 
+def h_option_as_deref(ex, st, frame, t, nf, args, dty):
+    """Option<Box<T>>::as_deref(&self) -> Option<&T>.  A Box is modelled as the reference to its heap cell."""
+    r, o = _opt_place(ex, st, args[0])
+    is_some = split_enum(ex, st, o, 1)
+    ga = generic_args(dty)
+    payload = ex.read_path(st, r.cell, tuple(r.proj) + (("downcast", "Some"), ("field", 0, "?")))
+    if isinstance(payload, Ref):
+        inner = Ref(payload.cell, payload.proj, False, ga[0] if ga else "&?")
+    else:
+        inner = Ref(r.cell, tuple(r.proj) + (("downcast", "Some"), ("field", 0, "?")), False, ga[0] if ga else "&?")
+    return [(some(inner, dty), is_some), (none(dty), z3.Not(is_some))]
+
+
 def h_option_take(ex, st, frame, t, nf, args, dty):
     r, o = _opt_place(ex, st, args[0])
     old = copy.deepcopy(o)
@@ -1046,6 +1088,24 @@ def h_option_map_or(ex, st, frame, t, nf, args, dty):
     return ("states", outs)
 
 
+def h_result_or_else(ex, st, frame, t, nf, args, dty):
+    """Result::or_else(self, f): Ok(v) -> Ok(v); Err(e) -> f(e)"""
+    v, f = args[0], args[1]
+    is_ok = split_enum(ex, st, v, 0)
+    outs = []
+    if ex.feasible(st, is_ok):
+        s_ok = st.fork()
+        s_ok.pc.append(is_ok)
+        ex.set_dest_and_goto(s_ok, t, ok(ex._get_field(s_ok, v, "Ok", 0, "?"), dty))
+        outs.append(s_ok)
+    if ex.feasible(st, z3.Not(is_ok)):
+        st.pc.append(z3.Not(is_ok))
+        payload = ex._get_field(st, v, "Err", 0, "?")
+        call_value(ex, st, frame, f, [payload], t.dest, t.targets.get("return"))
+        outs.append(st)
+    return ("states", outs)
+
+
 def h_slice_get(ex, st, frame, t, nf, args, dty):
     r = vec_ref(ex, st, args[0])
     v = as_vec(ex, st, r)
@@ -1106,6 +1166,14 @@ def h_checked_mul(ex, st, frame, t, nf, args, dty):
     wide = z3.ZeroExt(w, a.t) * z3.ZeroExt(w, b.t)
     ov = z3.Extract(2 * w - 1, w, wide) != z3.BitVecVal(0, w)
     return [(none(dty), ov), (some(Sym(a.t * b.t, a.ty), dty), z3.Not(ov))]
+
+
+def h_checked_rem(ex, st, frame, t, nf, args, dty):
+    a, b = args[0], args[1]
+    if a.ty.startswith("i"):
+        raise Unsupported("signed checked_rem")
+    zero = b.t == z3.BitVecVal(0, b.t.size())
+    return [(none(dty), zero), (some(Sym(z3.URem(a.t, b.t), a.ty), dty), z3.Not(zero))]
 
 
 def h_saturating_sub(ex, st, frame, t, nf, args, dty):
@@ -1430,6 +1498,9 @@ STD_SUMMARIES = [
     (r"^<(std::option::)?Option as (std::cmp::)?Ord>::(max|min)$", h_option_ord_max),
     (r"(^|::)(panic_fmt|panic|panic_display|panic_str|unwrap_failed|expect_failed|begin_panic|panic_bounds_check|panic_nounwind|panic_explicit|unreachable_display|assert_failed)$", h_panic),
     (r"^(std::option::)?Option::(as_ref|as_mut)$", h_option_as_ref),
+    (r"^(std::option::)?Option::as_deref$", h_option_as_deref),
+    (r"^(std::vec::)?Vec::into_boxed_slice$", h_identity0),
+    (r"^(std::result::)?Result::or_else$", h_result_or_else),
     (r"^(std::option::)?Option::take$", h_option_take),
     (r"^(std::option::)?Option::replace$", h_option_replace),
     (r"^(std::option::)?Option::zip$", h_option_zip),
@@ -1445,6 +1516,7 @@ STD_SUMMARIES = [
     (r"^core::num::(<impl \w+>::)?checked_sub$", h_checked_sub),
     (r"^core::num::(<impl \w+>::)?checked_add$", h_checked_add),
     (r"^core::num::(<impl \w+>::)?checked_mul$", h_checked_mul),
+    (r"^core::num::(<impl \w+>::)?checked_rem$", h_checked_rem),
     (r"^core::num::(<impl \w+>::)?saturating_sub$", h_saturating_sub),
     (r"^<(std::borrow::)?Cow as AsRef<.*>>::as_ref$", h_cow_as_ref),
     (r"^<(std::borrow::)?Cow as (std::ops::)?Deref>::deref$", h_cow_as_ref),
@@ -1470,7 +1542,7 @@ STD_SUMMARIES = [
     (r"^(std::result::)?Result::(is_ok|is_err)$", h_result_is_ok),
     (r"^<.* as (\S*::)?Try>::branch$", h_try_branch),
     (r"^<.* as (\S*::)?FromResidual<.*>>::from_residual$", h_from_residual),
-    (r"^(std::result::)?Result::map_err$", h_err_map_keep),
+    (r"^(std::result::)?Result::map_err$", h_result_map_err),
     (r"^<(std::result::)?Result as (anyhow::)?Context<.*>>::(with_context|context)$", h_err_map_keep),
     (r"^(std::option::)?Option::ok_or_else$", h_ok_or_else),
     (r"^Box::pin$", h_box_pin),
